@@ -128,6 +128,12 @@ def one_case(ck, rng, fam):
                 raise ScratchFailed()
 
     g = VGrid(nservers=p["nservers"], seed=rng.getrandbits(32), profile=profile, keep_log=False)
+    from allmydata.immutable.downloader.node import DownloadNode
+    saved_guess = DownloadNode.default_max_segment_size
+    # the downloader's initial guess of the segment size (1 MiB in production): below, equal to and above the real one
+    DownloadNode.default_max_segment_size = rng.choice([saved_guess, saved_guess, 16, max(1, p["segsize"] // 2),
+                                                         p["segsize"], p["segsize"] * 2 + 1])
+    desc["segsize_guess"] = DownloadNode.default_max_segment_size
     try:
         c = g.make_client(k=k, happy=1, n=n, max_segment_size=p["segsize"])
         if forged is not None:
@@ -207,6 +213,7 @@ def one_case(ck, rng, fam):
         ck.case(fam, key=(fam, k, n, size, p["segsize"], changed[0], tuple(detail[:3])),
                 nontrivial=changed[0] > 0, sample=dict(desc, detail=detail[:4]))
     finally:
+        DownloadNode.default_max_segment_size = saved_guess
         g.close()
 
 
